@@ -1,0 +1,74 @@
+//go:build verif
+
+package state
+
+// Verification hook: a canonical dump of the tracker's internal maps, with
+// pointers replaced by the names of the objects they point to. Compiled only
+// with -tags verif; reads only.
+
+import (
+	"encoding/hex"
+	"sort"
+	"strings"
+)
+
+func verifH(s string) string {
+	if s == "" {
+		return "-"
+	}
+	return hex.EncodeToString([]byte(s))
+}
+
+func verifBit(b bool) string {
+	if b {
+		return "1"
+	}
+	return "0"
+}
+
+func verifPrivs(p *ChanPrivs) string {
+	if p == nil {
+		return "nil"
+	}
+	return verifBit(p.Owner) + verifBit(p.Admin) + verifBit(p.Op) + verifBit(p.HalfOp) + verifBit(p.Voice)
+}
+
+// VerifDump renders st.nicks, st.chans, every lookup map and every
+// pointer-keyed map, and whether each privilege cell is shared by both sides.
+func VerifDump(t Tracker) string {
+	st, ok := t.(*stateTracker)
+	if !ok {
+		return "not-a-stateTracker"
+	}
+	st.mu.Lock()
+	defer st.mu.Unlock()
+	var nk []string
+	for k, n := range st.nicks {
+		var lk, ch []string
+		for cn, c := range n.lookup {
+			lk = append(lk, verifH(cn)+">"+verifH(c.name))
+		}
+		for c, cp := range n.chans {
+			ch = append(ch, verifH(c.name)+":"+verifPrivs(cp)+":"+verifBit(c.nicks[n] == cp))
+		}
+		sort.Strings(lk)
+		sort.Strings(ch)
+		nk = append(nk, verifH(k)+"=>nick="+verifH(n.nick)+",lookup=["+strings.Join(lk, ";")+"],chans=["+strings.Join(ch, ";")+"]")
+	}
+	var cs []string
+	for k, c := range st.chans {
+		var lk, nn []string
+		for name, n := range c.lookup {
+			lk = append(lk, verifH(name)+">"+verifH(n.nick))
+		}
+		for n, cp := range c.nicks {
+			nn = append(nn, verifH(n.nick)+":"+verifPrivs(cp)+":"+verifBit(n.chans[c] == cp))
+		}
+		sort.Strings(lk)
+		sort.Strings(nn)
+		cs = append(cs, verifH(k)+"=>name="+verifH(c.name)+",lookup=["+strings.Join(lk, ";")+"],nicks=["+strings.Join(nn, ";")+"]")
+	}
+	sort.Strings(nk)
+	sort.Strings(cs)
+	return "nicks{" + strings.Join(nk, "|") + "}chans{" + strings.Join(cs, "|") + "}me=" + verifH(st.me.nick)
+}
